@@ -44,6 +44,13 @@ def main(tier, seed):
                 content = "".join(rng.choice(ALPHA22) for _ in range(rng.randint(2, 10))).encode("utf-8")
             else:
                 content = rand_bytes(rng)
+            # what editors and platforms put around a text: byte order marks (also inside), CRLF, NUL, missing final newline
+            d = rng.random()
+            if d < 0.06: content = b"\xef\xbb\xbf" + content
+            elif d < 0.08: content = content[:len(content) // 2] + b"\xef\xbb\xbf" + content[len(content) // 2:]
+            elif d < 0.10: content = b"\xff\xfe" + content
+            elif d < 0.13: content = content.replace(b"\n", b"\r\n") + b"\r\n"
+            elif d < 0.15: content = content + b"\x00"
             q = rng.random()
             if q < 0.82: name = "f%d.hyeong" % k
             elif q < 0.88: name = "f%d.txt" % k
